@@ -411,6 +411,11 @@ class CrossEntropyLoss(nn.CrossEntropyLoss):
         reduction: str = "mean",
         label_smoothing: float = 0.0,
     ):
+        if reduction not in ("mean", "sum"):
+            raise ValueError(
+                f"reduction='{reduction}' is not supported by the unit-scaled"
+                " cross entropy (expected 'mean' or 'sum')"
+            )
         super().__init__(
             weight=weight,
             size_average=size_average,
